@@ -99,6 +99,28 @@ func (p *P) Enumerate(fh string, plus bool, budget int, maxPages int) {
 	}
 }
 
+// Bulk creates n new files prefix0..prefix(n-1) in directory d with one trace event for all of them (event "bulk":
+// the reference adds n empty regular files). Every CREATE must be acknowledged NFS3_OK with a handle.
+func (p *P) Bulk(d, prefix string, n int) []string {
+	m := map[string]int{}
+	fhs := make([]string, 0, n)
+	ids := make([]int, 0, n)
+	for i := 0; i < n; i++ {
+		c := NewCall("CREATE")
+		c.Fh, c.Name = d, fmt.Sprintf("%s%d", prefix, i)
+		c.NLen = len(c.Name)
+		c.ExecRaw(p.S.API)
+		if c.St != "OK" || !c.HasFh {
+			panic(fmt.Sprintf("bulk CREATE %s: %s %d", c.Name, c.St, c.Code))
+		}
+		m[c.Name] = i + 1
+		fhs = append(fhs, c.RFh)
+		ids = append(ids, c.RId)
+	}
+	p.T.Emit(map[string]interface{}{"ev": "bulk", "fh": d, "map": m, "fhs": fhs, "ids": ids})
+	return fhs
+}
+
 func (p *P) Dump() {
 	// a READ of a hole maps a block: on a nearly full disk the dump's own reads may come back short (see srv.go)
 	DumpTolerantShort = func() bool { fb, _ := p.S.Free(); return fb < 64 }
@@ -560,6 +582,35 @@ func init() {
 		p.S.WaitIdle()
 		p.T.Emit(TakeSnap(p.S, "run", true))
 		p.Tail()
+	}})
+	Probes = append(Probes, Probe{"directory-into-the-double-indirect-block", []string{"C13", "C04"}, 24000, func(p *P) {
+		// a directory of more than 16640 slots (8 direct + 512 indirect blocks of 32 slots): entries added, removed and
+		// renamed behind the double-indirect block, listed page by page, looked up after a restart
+		d := p.Mkdir(p.Root, "big").RFh
+		p.Bulk(d, "f", 16700)
+		p.Create(d, "new1")
+		p.Remove(d, "f16650")
+		p.Rename(d, "f16660", d, "r1")
+		p.Create(d, "new2") // takes a freed slot
+		p.Mkdir(d, "sub")
+		for _, n := range []string{"f16638", "f16639", "f16640", "f16669", "f16699", "f0", "f8000", "new1", "r1", "f16650"} {
+			p.Lookup(d, n)
+		}
+		p.Enumerate(d, false, 60000, 40)
+		p.Enumerate(d, true, 60000, 40)
+		p.S.WaitIdle()
+		p.T.Emit(TakeSnap(p.S, "run", true))
+		if !p.Restart() {
+			return
+		}
+		for _, n := range []string{"f16638", "f16670", "f16699", "new2", "sub", "f1"} {
+			p.Lookup(d, n)
+		}
+		p.Remove(d, "f16698")
+		p.Create(d, "new3")
+		p.Enumerate(d, false, 60000, 40)
+		p.S.WaitIdle()
+		p.T.Emit(TakeSnap(p.S, "run", true))
 	}})
 	Probes = append(Probes, Probe{"remove-while-truncation-is-in-progress", []string{"C05", "C12", "C04"}, 16000, func(p *P) {
 		const B = 4096
